@@ -154,6 +154,13 @@ def run(case):
         o = attempt(lambda: unp(ba[np.array(pos, dtype=pdt)].unpack()))
         if not o.ok or o.value != e:
             return "packed[array(%s)].unpack() gives %s, expected %s" % (pos, repr(o) if not o.ok else short(o.value, 120), short(e, 120))
+        # positions read back from another packed array (numpy's unsigned 64-bit integers) next to plain python ints in one list (numpy reads such a list as doubles)
+        if len(pos) >= 2:
+            mixed_ = [q if i_ % 2 else np.uint64(q) for i_, q in enumerate(pos)]
+            CTX.tick("c13:getlist-mixed")
+            o = attempt(lambda: unp(ba[mixed_].unpack()))
+            if not o.ok or o.value != e:
+                return "packed[a list mixing python ints and numpy uint64: %s].unpack() gives %s, expected %s" % (short(pos, 80), repr(o) if not o.ok else short(o.value, 120), short(e, 120))
         # "returns a packed array of those elements": it must answer like any packed array (element access, windows)
         w2 = min(w, len(e))
         if w2 >= 1:
